@@ -17,9 +17,9 @@ import copy, json, os
 import vlib, m2, m3, irutil, gen
 from batch import Batch, J, canon
 
-PROOF_TARGETS = ["TypifyModel.Proofs.C05"]
+PROOF_TARGETS = ["TypifyModel.Proofs.C05", "TypifyModel.Proofs.C05Enc"]
 FINDINGS_TARGET = "TypifyModel.Proofs.C05Findings"
-PROOF_FILES = ["Proofs/C05.lean", "Proofs/C11.lean", "Proofs/Lemmas/StrConvLemmas.lean", "Proofs/Lemmas/RenderLemmas.lean"]
+PROOF_FILES = ["Proofs/C05.lean", "Proofs/C05Enc.lean", "Proofs/C11.lean", "Proofs/Lemmas/StrConvLemmas.lean", "Proofs/Lemmas/RenderLemmas.lean"]
 KINDS = [n for n, _ in gen.MUTATORS]          # required additional enum length pattern arity type tag
 STR_OPS = ("fromstr", "tryfrom_str", "tryfrom_string", "tryfrom_refstring")
 OPS = ("de",) + STR_OPS
@@ -428,6 +428,64 @@ def pred_struct_seq_form(rec, doc):
     if st != "ok" or not parts: return False
     return _array_read_as_object(rec.value, json.loads(parts[0]))
 
+def _unit_map_read_as_string(inp, out):
+    """some {"k": null} of the document comes back as the string "k": serde's map form of a unit variant"""
+    if isinstance(inp, dict) and isinstance(out, str): return len(inp) == 1 and list(inp.items())[0] == (out, None)
+    if isinstance(inp, list) and isinstance(out, list): return any(_unit_map_read_as_string(a, b) for a, b in zip(inp, out))
+    if isinstance(inp, dict) and isinstance(out, dict): return any(_unit_map_read_as_string(v, out[k]) for k, v in inp.items() if k in out)
+    return False
+
+def pred_unit_variant_map_form(rec, doc):
+    st, parts = m3.norm_real("de", rec.ans["de"])
+    if st != "ok" or not parts: return False
+    return _unit_map_read_as_string(rec.value, json.loads(parts[0]))
+
+def shared_variant_types(dump):
+    """[(tag member, {member names})] of the internally / adjacently tagged enums in which two variants hold ONE named type
+    under the same member name (adjacent: the content member): typify names an inline subtype after the enum and the member,
+    not the variant, so the second variant's subtype resolves (by name) to the type made for the first"""
+    es = irutil.entries(dump); out = []
+    def named(i, fuel=6):
+        e = es.get(i)
+        while e is not None and e["kind"] in ("option", "box") and fuel > 0: e = es.get(e["id"]); fuel -= 1
+        return id(e) if e is not None and e["kind"] in ("newtype", "struct", "enum") else None
+    for e in es.values():
+        if e["kind"] != "enum" or not isinstance(e.get("tag"), dict): continue
+        if "adjacent" in e["tag"]:
+            tg, ct = e["tag"]["adjacent"]
+            ids = [named(v["details"]["item"]) for v in e["variants"] if isinstance(v["details"], dict) and "item" in v["details"]]
+            ids = [i for i in ids if i is not None]
+            if len(ids) != len(set(ids)): out.append((tg, {ct}))
+        elif "internal" in e["tag"]:
+            tg = e["tag"]["internal"]; seen = {}; keys = set()
+            for v in e["variants"]:
+                if isinstance(v["details"], dict) and "struct" in v["details"]:
+                    for p in v["details"]["struct"]:
+                        n = named(p["type_id"])
+                        if n is None: continue
+                        w = _wire(p)
+                        if (w, n) in seen and seen[(w, n)] != v["raw_name"]: keys.add(w)
+                        seen.setdefault((w, n), v["raw_name"])
+            if keys: out.append((tg, keys))
+    return out
+
+def pred_variant_shared_type(rec, doc):
+    """the mutated place is the tag of such an enum's object, or lies under one of the members concerned"""
+    pairs = shared_variant_types(rec.case.dump)
+    if not pairs: return False
+    if not rec.at:      # hand-written probe: any such object in the document
+        def anyw(v):
+            if isinstance(v, dict): return any(tg in v and any(k in v for k in ks) for tg, ks in pairs) or any(anyw(x) for x in v.values())
+            if isinstance(v, list): return any(anyw(x) for x in v)
+            return False
+        return anyw(rec.value)
+    toks = gen.ptr_split(rec.at); cur = rec.value
+    for t in toks:
+        if isinstance(cur, dict) and any(tg in cur and (t == tg or t in ks) for tg, ks in pairs): return True
+        try: cur = cur[int(t)] if isinstance(cur, list) else cur[t]
+        except (KeyError, IndexError, ValueError, TypeError): return False
+    return False
+
 def pred_adjacent_closed_wrapper(rec, doc):
     """an unknown member was added to a closed object that typify reads as the {tag, content} wrapper of an ADJACENTLY tagged
     enum whose IR entry does not deny unknown fields (maybe_adjacently_tagged_enum looks at the content's closedness only)"""
@@ -498,7 +556,8 @@ def pred_const_ignored(rec, doc):
 
 PREDICATES = {"C05-bool-enum": pred_bool_enum, "C05-struct-seq-form": pred_struct_seq_form,
               "C05-adjacent-closed-wrapper": pred_adjacent_closed_wrapper, "C05-buffered-tag-index": pred_buffered_tag_index,
-              "C05-const-ignored": pred_const_ignored}
+              "C05-const-ignored": pred_const_ignored, "C05-unit-variant-map-form": pred_unit_variant_map_form,
+              "C05-variant-shared-inline-type": pred_variant_shared_type}
 
 
 # ------------------------------------------------------------------------------------------ syntactic half (M2)
@@ -673,6 +732,29 @@ def run(ctx):
         if rec.ans is None: rec.ans = {}; rec.model = {}
         rec.ans[op] = ra; rec.model[op] = ma
     ev = evaluate(recs)
+    # ---- translation validation of the schema-level theorem (C05E.enc_sound): encB on the real (schema, IR dump) pairs.
+    # `frag` = the definition's schema is inside encB's fragment (syntactic); frag and not enc = a constraint the schema
+    # states is not represented in the type (or the type has a shape encB does not recognise): the obligation is open
+    enc_stats = {"enc_true": 0, "in_fragment": 0, "outside_fragment": 0, "schema_unsupported": 0}; enc_open = []
+    enc_cases = [c for c in live if c.compiled]          # every call succeeded and the output compiles: the dump is complete
+    if st["driver_ok"] and enc_cases:
+        lines = []
+        for k, c in enumerate(enc_cases):
+            lines.append("ir c%d %s" % (k, json.dumps({"dump": c.dump, "settings": {}, "doc": docs[c.tag]}))); lines.append("allenc c%d" % k)
+        try:
+            out = m2.run_bin(vlib.drv("ir"), lines)
+            for k, c in enumerate(enc_cases):
+                rr = json.loads(out[2 * k + 1]) if out[2 * k] == "ok" else {"defs": {}, "unsupported": []}
+                enc_stats["schema_unsupported"] += len(rr["unsupported"])
+                for key, v in rr["defs"].items():
+                    if key in rr["unsupported"]: continue
+                    if v["frag"]: enc_stats["in_fragment"] += 1
+                    else: enc_stats["outside_fragment"] += 1
+                    if v["enc"]: enc_stats["enc_true"] += 1
+                    elif v["frag"] and v["rid"] is not None: enc_open.append((c, key))
+        except Exception as e:
+            ctx.notes.append("allenc unavailable: %r" % (e,))
+    ctx.log("encB on real dumps: %r; in fragment but not enforced: %d %s" % (enc_stats, len(enc_open), [(c.tag, k) for c, k in enc_open[:8]]))
     with open(os.path.join(vlib.CACHE, "c05_survivors_%s.json" % ctx.tier), "w") as f:      # debugging aid only
         json.dump({"survivors": [dict(x.brief(), at=x.at, base=x.base, ptr=x.ptr) for x in ev["survivors"]],
                    "panics": [x.brief() for x in recs if x.ans and x.ans["de"].startswith(("panic", "abort", "timeout"))][:50],
@@ -708,6 +790,11 @@ def run(ctx):
         broken.append("correspondence M3 (de / string conversions): model and compiled code disagree on %d requests" % len(r["disagreements"]))
     if syn["disagreements"]:
         broken.append("correspondence M2 (render of newtypes): model and implementation disagree on %d cases" % len(syn["disagreements"]))
+    if enc_open:
+        # the hypothesis of C05E.enc_sound is false on a real (schema, IR) pair inside encB's fragment: a constraint the schema
+        # states is not represented in the type typify generated for it
+        broken.append("translation validation (Enc.encB, hypothesis of C05E.enc_sound) fails on %d definitions inside the fragment: %s"
+                      % (len(enc_open), ", ".join("%s:%s" % (c.tag, k) for c, k in enc_open[:6])))
     ctx.log("valid instances: %r; mutants: %s; survivors=%d (known %d) string-conversion failures=%d syntactic failures=%d; M3 disagreements=%d M2 disagreements=%d" % (
         ev["valid"], " ".join("%s=%d/%d" % (k, v["killed"], v["oracle_invalid"]) for k, v in ev["per"].items()),
         len(ev["survivors"]), sum(known_hits.values()), len(ev["strfail"]), len(syn["fails"]), len(r["disagreements"]), len(syn["disagreements"])))
@@ -760,6 +847,8 @@ def run(ctx):
                "tvh_m2 (syn summary of the emitted items), rustc"],
            "axioms": st.get("axioms", {}),
            "evaluations": len(reqs), "distinct_nontrivial": distinct,
+           "enc_translation_validation": dict(enc_stats, open_definitions=[[c.tag, k] for c, k in enc_open[:20]],
+                                              theorem="C05E.enc_sound: AllEnc & encB(S, T) & de T j = ok => validE S j != some false (all documents, IRs, schemas, types, JSON, fuels)"),
            "rule": "cases = hand-written schemas (one per enforced construct, multi-byte boundaries), repository fixtures, gen_universe(FEATURE_SETS['c05']); "
                    "per root/definition type: hand probes + gen_boundary + gen_valid instances, each mutated by the eight targeted mutators (twice) and a "
                    "deny-list mutator, every instance and mutant judged by the independent validator; one evaluation = one operation (de / parse / try_from) "
